@@ -1,19 +1,20 @@
 use std::fmt;
-use std::sync::Arc;
 
 use crate::events::attributes::AttrError;
 
-/// Model of `quick_xml::Error`.
-#[derive(Clone, Debug)]
+/// Model of `quick_xml::Error`.  Field-less and `Copy`: a `Result<_, Error>` with a symbolic
+/// discriminant has no drop glue (drop glue of heap-carrying error enums dominates symbolic
+/// execution otherwise).  Payloads of the real variants (messages, the io::Error) are dropped.
+#[derive(Clone, Copy, Debug, PartialEq, Eq)]
 pub enum Error {
-    Io(Arc<std::io::Error>),
-    NonDecodable(Option<std::str::Utf8Error>),
-    UnexpectedEof(String),
-    EndEventMismatch { expected: String, found: String },
-    UnexpectedToken(String),
+    Io,
+    NonDecodable,
+    UnexpectedEof,
+    EndEventMismatch,
+    UnexpectedToken,
     InvalidAttr(AttrError),
     /// Model only: "the tokenizer failed here" (malformed markup, mismatched end tag, bad
-    /// escape, …) — an `Err` cell of the tape.
+    /// escape, ...) — an `Err` cell of the tape.
     Injected,
 }
 
@@ -21,19 +22,22 @@ pub type Result<T> = std::result::Result<T, Error>;
 
 impl From<std::io::Error> for Error {
     fn from(e: std::io::Error) -> Self {
-        Error::Io(Arc::new(e))
+        // leaked, not dropped: io::Error's drop glue is a known CBMC blow-up
+        std::mem::forget(e);
+        Error::Io
     }
 }
 
 impl From<std::str::Utf8Error> for Error {
-    fn from(e: std::str::Utf8Error) -> Self {
-        Error::NonDecodable(Some(e))
+    fn from(_: std::str::Utf8Error) -> Self {
+        Error::NonDecodable
     }
 }
 
 impl From<std::string::FromUtf8Error> for Error {
     fn from(e: std::string::FromUtf8Error) -> Self {
-        Error::NonDecodable(Some(e.utf8_error()))
+        std::mem::forget(e);
+        Error::NonDecodable
     }
 }
 
